@@ -27,6 +27,7 @@ type cenv struct {
 	depth int
 	// skipParams: resolveLocal ignores definitions that are the parameter itself
 	skipParams bool
+	inOld      bool // inside old(...): names mean entry values
 }
 
 type cevalErr struct{ msg string }
@@ -437,6 +438,18 @@ func (x *vc) evalIdent(env *cenv, name string) Val {
 			}
 		}
 	}
+	// in-body clauses (atif, atcall, atstore) speak about the state at that point: a re-assigned parameter has its
+	// current value there (old(v) is the entry value). Postconditions keep the entry meaning (curBlock is nil then).
+	if env.hdr == nil && !env.inOld && env.fr != nil && env.fr.curBlock != nil && env.fr.top {
+		if _, isParam := env.vars[name]; isParam && !strings.HasPrefix(name, "callee_") {
+			env.skipParams = true
+			v, ok := x.resolveLocal(env, name)
+			env.skipParams = false
+			if ok {
+				return v
+			}
+		}
+	}
 	if v, ok := env.vars[name]; ok {
 		return v
 	}
@@ -634,6 +647,7 @@ func (x *vc) evalCall(env *cenv, e *cexpr) Val {
 		sub := *env
 		sub.st = env.old
 		sub.hdr = nil // entry values: loop variables do not exist yet
+		sub.inOld = true
 		return x.eval(&sub, e.args[0])
 	case "len":
 		v := x.eval(env, e.args[0])
